@@ -20,6 +20,9 @@ Clause → theorem (cells are items `x : β` with probability `w x ≥ 0`, visit
   warning iff grid content < 1-α; fallback        warn_iff_total_lt, fallback_all_cells
   the order visited is a sorted permutation       sortDesc_perm, sortDesc_sorted
   IndexError branch (densest cell > 1-α)          empty_iff_first_gt_limit
+  the (cond, dist) matrix lands on the right axes of the n-D grid iff the conditioning
+  axis comes first (hierarchy); transposed otherwise  reshape_index_of_cond_lt, reshape_transposes_if_cond_gt,
+                                                      reshape_index_single
 -/
 import VirVerif.Model.Hdc
 import Mathlib.Algebra.Order.Field.Basic
@@ -27,6 +30,7 @@ import Mathlib.Algebra.Order.BigOperators.Group.List
 import Mathlib.Data.List.Basic
 import Mathlib.Data.List.Sort
 import Mathlib.Tactic.Linarith
+import Mathlib.Tactic.Ring
 
 namespace VirVerif.C02
 open VirVerif
@@ -250,6 +254,96 @@ theorem no_warning_region (vals : List α) (limit : α) (r : SelResult α)
     (h : cumsumBiggestUntil 0 vals limit = .ok r) (hw : r.warn = false) :
     hdrRegion 0 vals limit = .ok (r.selected, r.last, false) := by
   simp [hdrRegion, h, hw]
+
+/-! ### placement of the per-dimension arrays in the n-D grid (`reshape` + broadcasting) -/
+
+theorem flatUpTo_shape2 (a la b lb : Nat) (hab : a < b) (I : Nat → Nat) (k : Nat) :
+    flatUpTo (fun j => if j = a then la else if j = b then lb else 1) I k =
+      if k ≤ a then 0
+      else if k ≤ b then (if la = 1 then 0 else I a)
+      else (if la = 1 then 0 else I a) * lb + (if lb = 1 then 0 else I b) := by
+  induction k with
+  | zero => simp [flatUpTo]
+  | succ k ih =>
+    simp only [flatUpTo, ih]
+    by_cases h1 : k < a
+    · have : k ≠ a := by omega
+      have : k ≠ b := by omega
+      have hk : k ≤ a := by omega
+      have hk1 : k + 1 ≤ a := by omega
+      simp [*]
+    · by_cases h2 : k = a
+      · subst h2
+        have hk1 : ¬ k + 1 ≤ k := by omega
+        have hk2 : k + 1 ≤ b := by omega
+        simp [hk1, hk2]
+      · by_cases h3 : k < b
+        · have : k ≠ b := by omega
+          have ha : ¬ k ≤ a := by omega
+          have ha1 : ¬ k + 1 ≤ a := by omega
+          have hb : k ≤ b := by omega
+          have hb1 : k + 1 ≤ b := by omega
+          simp [*]
+        · by_cases h4 : k = b
+          · subst h4
+            have ha : ¬ k ≤ a := by omega
+            have ha1 : ¬ k + 1 ≤ a := by omega
+            have hb1 : ¬ k + 1 ≤ k := by omega
+            have hne : k ≠ a := by omega
+            simp [ha, ha1, hb1, hne]
+          · have ha : ¬ k ≤ a := by omega
+            have ha1 : ¬ k + 1 ≤ a := by omega
+            have hb : ¬ k ≤ b := by omega
+            have hb1 : ¬ k + 1 ≤ b := by omega
+            simp [*]
+
+/-- **placement of the conditional matrix** (`fbar.reshape(fbar_out_shape)` in `cell_averaged_pdf`):
+the `(len(cond), len(dist))` matrix is stored cond-major; in the n-D array with `len(cond)` at axis
+`c` and `len(dist)` at axis `d` the cell `I` reads flat offset `I c * len(dist) + I d`, i.e. matrix
+entry `(I c, I d)` — **iff the conditioning axis comes first (`c < d`, the hierarchy)**. -/
+theorem reshape_index_of_cond_lt (n c lc d ld : Nat) (hcd : c < d) (hd : d < n) (I : Nat → Nat)
+    (hlc : lc ≠ 1) (hld : ld ≠ 1) :
+    flatUpTo (fun j => if j = c then lc else if j = d then ld else 1) I n = I c * ld + I d := by
+  rw [flatUpTo_shape2 c lc d ld hcd I n]
+  have h1 : ¬ n ≤ c := by omega
+  have h2 : ¬ n ≤ d := by omega
+  simp [h1, h2, hlc, hld]
+
+/-- … and when the conditioning axis comes later (`d < c`, a non-hierarchical structure) the same
+cond-major data are read transposed: cell `I` reads offset `I d * len(cond) + I c`, which is matrix
+entry `(I c, I d)` only by accident. -/
+theorem reshape_transposes_if_cond_gt (n c lc d ld : Nat) (hdc : d < c) (hc : c < n) (I : Nat → Nat)
+    (hlc : lc ≠ 1) (hld : ld ≠ 1) :
+    flatUpTo (fun j => if j = d then ld else if j = c then lc else 1) I n = I d * lc + I c := by
+  rw [flatUpTo_shape2 d ld c lc hdc I n]
+  have h1 : ¬ n ≤ d := by omega
+  have h2 : ¬ n ≤ c := by omega
+  simp [h1, h2, hlc, hld]
+
+/-- the one-axis case (unconditional dimension): offset = the index on that axis -/
+theorem reshape_index_single (n a la : Nat) (ha : a < n) (I : Nat → Nat) (hla : la ≠ 1) :
+    flatUpTo (fun j => if j = a then la else 1) I n = I a := by
+  have key : ∀ k, flatUpTo (fun j => if j = a then la else 1) I k = if k ≤ a then 0 else I a := by
+    intro k
+    induction k with
+    | zero => simp [flatUpTo]
+    | succ k ih =>
+      simp only [flatUpTo, ih]
+      by_cases h1 : k < a
+      · have : k ≠ a := by omega
+        have : k ≤ a := by omega
+        have : k + 1 ≤ a := by omega
+        simp [*]
+      · by_cases h2 : k = a
+        · subst h2; simp [hla]
+        · have : ¬ k ≤ a := by omega
+          have : ¬ k + 1 ≤ a := by omega
+          simp [*]
+  rw [key n]; simp [Nat.not_le.mpr ha]
+
+example : flatUpTo (fun j => if j = 0 then 3 else if j = 2 then 4 else 1) (fun j => [2, 7, 3].getD j 0) 3 = 2 * 4 + 3 := by
+  decide
+
 
 /-! ### non-vacuity -/
 -- cell probabilities in units of 1/20: 0.5, 0.3, 0.1, 0.05, 0.05 with 1-α = 0.9
